@@ -791,24 +791,6 @@ class Normaliser:
                         rename_locals(f, {tmp[c]: b for c, b in mapping.items()})
                         self.edited.discard((path, q))
                         self.log.append(f'N10 {path}::{q}: {len(mapping)} local(s) renamed back to the names of the reference function (alpha-equivalent)')
-                    elif af is not None:
-                        # edited beyond a renaming: when exactly one local of the reference function is gone and exactly one new local
-                        # appeared, give the new one the old name (renaming a local to a name the function does not use is always an
-                        # equivalence; it only decides under which name the rules look at it)
-                        base_l = set(self.base.get(path, {}).get('funcs', {}).get(q, ()))
-                        cur_l = local_names(f)
-                        new_l, gone = cur_l - base_l, base_l - cur_l
-                        if len(new_l) == 1 and len(gone) == 1:
-                            g_ = next(iter(gone))
-                            n_ = next(iter(new_l))
-                            used = {x.id for x in ast.walk(f) if isinstance(x, ast.Name)} | {x.arg for x in ast.walk(f) if isinstance(x, ast.arg)}
-                            # not for throw-away names, and not when the new local is a mere alias of a reference path (the forward
-                            # substitution removes such a local; under a known name it would stay)
-                            binds_ = [st_.value for st_ in ast.walk(f) if isinstance(st_, ast.Assign) and any(isinstance(t_, ast.Name) and t_.id == n_ for t_ in st_.targets)]
-                            alias_ = bool(binds_) and all(_is_path(b_) for b_ in binds_)
-                            if g_ not in used and n_ in af[1] and len(g_) >= 3 and not g_.startswith('_') and binds_ and not alias_:
-                                rename_locals(f, {n_: g_})
-                                self.log.append(f'N10 {path}::{q}: the only new local {n_} takes the name of the only local that disappeared ({g_})')
         self._collect()
         self._inline_new_properties()
         for path in sorted(self.modules):
